@@ -28,9 +28,13 @@ type c06Stats struct {
 }
 
 func runLabelSpace(ctx *evid.Ctx, k int, P []int, prologues []int, st *c06Stats, lens *sync.Map) {
+	runLabelSpaceKinds(ctx, k, P, prologues, []bool{false, true}, st, lens)
+}
+
+func runLabelSpaceKinds(ctx *evid.Ctx, k int, P []int, prologues []int, kinds []bool, st *c06Stats, lens *sync.Map) {
 	nshard := (k + 2) * (k + 2)
 	parallelFor(nshard, func(sh int) {
-		labelm.Enumerate(k, P, prologues, sh, nshard, func(s *labelm.Spec) {
+		labelm.EnumerateKinds(k, P, prologues, kinds, sh, nshard, func(s *labelm.Spec) {
 			res, ok := labelm.Check(s)
 			atomic.AddInt64(&st.programs, 1)
 			atomic.AddInt64(&st.inputs, int64(res.Inputs))
@@ -76,7 +80,7 @@ func checkC06(tier, replay string) int {
 		runLabelSpace(ctx, 3, padsP2, pro, st, &lens)
 	} else {
 		runLabelSpace(ctx, 3, padsP1, pro, st, &lens)
-		runLabelSpace(ctx, 4, padsP2, pro, st, &lens)
+		runLabelSpaceKinds(ctx, 4, []int{0, 256}, pro, []bool{false}, st, &lens)
 	}
 	ctx.Sample(map[string]any{"label_program": labelm.Spec{Slots: []labelm.Slot{{TwoWay: true, T: 3, F: 1}, {T: 4}}, Pads: []int{256, 300}, PadJumps: true, ShareLabel: false, Prologue: 1},
 		"meaning": "ld; jset b0 ->RetB / ->slot1; 256 filler (short-jump pairs); jset b1 -> Ld;RetC; 300 filler; RetA; RetB; Ld; RetC  - run on all 2^3 inputs"})
